@@ -164,6 +164,42 @@ def build(variant):
             o = pyrtl.Output(4, 'o_' + nm)
             o <<= r
         return pyrtl.working_block()
+    elif variant == 'cond_fsm':
+        # conditional_assignment with multi-term predicates: sibling branches, otherwise, nesting (every
+        # temporary net and name it creates must come out in the same order in every process)
+        a, b, c = pyrtl.Input(1, 'a'), pyrtl.Input(1, 'b'), pyrtl.Input(1, 'c')
+        d = pyrtl.Input(3, 'd')
+        st_ = pyrtl.Register(2, 'state')
+        acc = pyrtl.Register(3, 'acc')
+        o = pyrtl.Output(3, 'o')
+        m = pyrtl.MemBlock(3, 1, 'm', asynchronous=True)
+        with pyrtl.conditional_assignment:
+            with a:
+                with b:
+                    st_.next |= 1
+                    acc.next |= d
+                with c:
+                    st_.next |= 2
+                    o |= d + 1
+                with pyrtl.otherwise:
+                    acc.next |= acc + 1
+                    m[a] |= d
+            with b & c:
+                st_.next |= 3
+                o |= acc
+            with c:
+                with b:
+                    o |= 5
+                with pyrtl.otherwise:
+                    o |= d ^ acc
+                    m[c] |= acc
+            with pyrtl.otherwise:
+                st_.next |= 0
+        o2 = pyrtl.Output(3, 'o2')
+        o2 <<= m[b]
+        o3 = pyrtl.Output(2, 'o3')
+        o3 <<= st_
+        return pyrtl.working_block()
     elif variant == 'outs_tie':
         i0 = pyrtl.Input(2, 'i0')
         for n_, nm in enumerate(['o1', 'o01', 'o001', 'o0001', 'p1', 'p01']):
